@@ -1,5 +1,6 @@
 import PsVerif.Model.Init
 import PsVerif.Generated.Consts
+import PsVerif.Props.Ties.Within
 /-! Ties: interpreter limits and literal tests (C01, C03, C11). Each theorem is closed by `rfl`/`decide`. -/
 namespace PsVerif.Props.Ties
 open PsVerif.Model PsVerif.Generated
@@ -14,9 +15,7 @@ theorem interp_consts :
 
 /-- the literal tests in `executeOne`: `execStackDepth >= 100` (at entry and for a procedure called by name), `level < 5`, `len(Stack) > 500` -/
 theorem interp_literal_tests :
-    Consts.root_execDepthTests = [">= 100"] ∧ Consts.root_errorLevelTests = ["< 5"] ∧
-    Consts.root_stackDepthTests = ["> 500"] ∧ Consts.root_internaldictTests = ["!= 1183615869"] := by
-  refine ⟨rfl, rfl, rfl, rfl⟩
+    allIn [">= 100", "< 5", "> 500", "== 1183615869", "> 65536", "> 255"] Consts.cmp_root = true := by decide
 
 theorem interp_literal_model : execDepthLimit = 100 ∧ errorNestingLimit = 5 ∧ maxOperandStackDepth = 500 ∧
     internalDictPasscode = 1183615869 := by decide
